@@ -14,7 +14,7 @@ from .procs import fork_run
 PROP = "C13"
 PROG_MUTS = ["op_append_badarray", "op_pop", "op_pop", "op_append", "op_del", "op_replace", "op_rename", "arg_set", "arg_append", "kwarg_set",
              "modes_edit", "var_array_write", "var_set", "option_add", "type_option_add", "modes_add",
-             "array_arg_write", "list_kwarg_append"]
+             "array_arg_write", "list_kwarg_append", "regref_edit", "regref_edit"]
 GRAPH_MUTS = ["g_add_node", "g_remove_node", "g_add_edge", "g_set_attr"]
 MATCH_MUTS = ["m_add", "m_del"]
 
@@ -367,6 +367,12 @@ def run(plan, ctx):
                 bump("mut_effective:" + st["how"]["kind"])
             bump("mut:" + st["how"]["kind"])
         elif op in child.LOAD_OPS:
+            if ev.get("attr_reads_changed_dumps"):
+                viol.append({"inv": "R1", "step": i, "obj": st.get("out"),
+                             "detail": "reading the public attributes of the freshly loaded %s changed its "
+                                       "serialisation: before %s, after %s" % (
+                                           st.get("out"), str(ev["attr_reads_changed_dumps"][0])[:300],
+                                           str(ev["attr_reads_changed_dumps"][1])[:300])})
             if ev.get("feat"):
                 feats[st["out"]] = ev["feat"]
         elif op in ("build", "mkarray"):
@@ -452,6 +458,12 @@ def run(plan, ctx):
                                      "detail": "dump/dumps(%s) at step %d produced %s, but the serialisation of an "
                                                "equal copy taken just before was different" %
                                                (st["obj"], i, (ev["res"].get("text") if ev.get("ok") else ev["res"]))})
+        for oid, now in objs.items():
+            if len(now) > 2 and len(model.get(oid, [])) <= 2:
+                viol.append({"inv": "R1", "step": i, "obj": oid,
+                             "detail": "reading the public attributes of %s (name, version, target, programtype, "
+                                       "operations, variables, parameters, modes, len, is_template) changed its "
+                                       "serialisation (observed after step %d)" % (oid, i)})
         # R1/R2: nothing but the declared mutation target may change
         for oid, h in model.items():
             if oid in allowed:
